@@ -229,6 +229,15 @@ var pieces = func() [][]byte {
 	return p
 }()
 
+var pieceGen = rapid.Custom(func(t *rapid.T) []byte {
+	if rapid.IntRange(0, 4).Draw(t, "raw?") == 4 {
+		return []byte{rapid.Byte().Draw(t, "b")}
+	}
+	return rapid.SampledFrom(pieces).Draw(t, "piece")
+})
+
+// drawFaultBytes draws a byte string of at most maxLen bytes: generic bytes (gen.Bytes), raw random
+// bytes, or a concatenation of fault-pool pieces (short, or long enough to cross 127/128/255/256).
 func drawFaultBytes(t *rapid.T, label string, maxLen int) []byte {
 	var s []byte
 	switch rapid.IntRange(0, 4).Draw(t, label+"-kind") {
@@ -236,19 +245,13 @@ func drawFaultBytes(t *rapid.T, label string, maxLen int) []byte {
 		s = gen.Bytes(maxLen).Draw(t, label)
 	case 1:
 		s = rapid.SliceOfN(rapid.Byte(), 0, 40).Draw(t, label)
-	case 2: // long: around 127/128/255/256/300
-		n := rapid.SampledFrom([]int{127, 128, 129, 255, 256, 300}).Draw(t, label+"-len")
-		for len(s) < n {
-			s = append(s, rapid.SampledFrom(pieces).Draw(t, label+"-piece")...)
+	case 2:
+		for _, p := range rapid.SliceOfN(pieceGen, 30, 150).Draw(t, label+"-long") {
+			s = append(s, p...)
 		}
 	default:
-		n := rapid.IntRange(0, 12).Draw(t, label+"-n")
-		for i := 0; i < n; i++ {
-			if rapid.IntRange(0, 4).Draw(t, label+"-raw?") == 0 {
-				s = append(s, rapid.Byte().Draw(t, label+"-b"))
-			} else {
-				s = append(s, rapid.SampledFrom(pieces).Draw(t, label+"-piece")...)
-			}
+		for _, p := range rapid.SliceOfN(pieceGen, 0, 12).Draw(t, label+"-pieces") {
+			s = append(s, p...)
 		}
 	}
 	if len(s) > maxLen {
